@@ -12,7 +12,7 @@ pub(crate) fn mk_config(
     cache_items: Option<usize>,
     cache_cap: Option<usize>,
 ) -> Arc<Config> {
-    Arc::new(Config {
+    let c = Config {
         dir: String::new(),
         log_cache_max_items: cache_items,
         log_cache_capacity: cache_cap,
@@ -20,7 +20,11 @@ pub(crate) fn mk_config(
         chunk_max_records: max_records,
         chunk_max_size: max_size,
         truncate_incomplete_record: None,
-    })
+    };
+    // Config accessors answer from ghost constants (stubs::cfg_*): a field read
+    // back through the Arc is not a constant for symbolic execution
+    crate::kani_support::stubs::cfg_set(&c);
+    Arc::new(c)
 }
 
 /// Open on the (initially empty) ghost directory. The worker is parked.
@@ -46,4 +50,25 @@ pub(crate) fn is_ok<V>(r: Result<V, std::io::Error>) -> bool {
             false
         }
     }
+}
+
+/// Configuration for the harnesses that replay chunk files: the read buffer
+/// size and the truncation switch are ghost constants (stubs::CFG_*, tied to
+/// the real fields by an assumption inside the accessor stubs).
+pub(crate) fn replay_config(truncate: Option<bool>) -> Arc<Config> {
+    replay_config_cache(truncate, None, None)
+}
+
+pub(crate) fn replay_config_cache(truncate: Option<bool>, cache_items: Option<usize>, cache_cap: Option<usize>) -> Arc<Config> {
+    let c = Config {
+        dir: String::new(),
+        log_cache_max_items: cache_items,
+        log_cache_capacity: cache_cap,
+        read_buffer_size: Some(0),
+        chunk_max_records: None,
+        chunk_max_size: None,
+        truncate_incomplete_record: truncate,
+    };
+    crate::kani_support::stubs::cfg_set(&c);
+    Arc::new(c)
 }
